@@ -42,6 +42,75 @@ theorem op_result_from_inner (env : Env) (p : Producer) (f : Option Filter) (dt 
           have := C04.getNext_gt env p cur n hn
           omega
 
+/-- the occurrences of the underlying trigger as a job follows them from `dt`: each one is `get_next` of the one
+before; `ChainTo dt ns cur` — `ns` lists them in order and `cur` is the last one (`dt` itself when there is none) -/
+inductive ChainTo (env : Env) (p : Producer) (dt : Int) : List Int → Int → Prop
+  | nil : ChainTo env p dt [] dt
+  | snoc {ns : List Int} {cur n : Int} : ChainTo env p dt ns cur → getNext env p cur = .ok n →
+      ChainTo env p dt (ns ++ [n]) n
+
+/-- **no occurrence of the underlying trigger is passed over**: the search of an operation walks the occurrences of
+the underlying trigger one by one, starting at the reference instant; the occurrence `n` whose image is returned is
+the first one whose image lies after the reference instant and passes the operation's filter — every occurrence
+before it in the chain was transformed, tested and rejected for exactly that reason -/
+theorem op_tries_every_occurrence (env : Env) (p : Producer) (f : Option Filter) (dt r : Int)
+    (apply : Int → Except Err Int)
+    (h : loopN LOOP dt (fun cur =>
+      match getNext env p cur with
+      | .error e => .error e
+      | .ok n => opStep env f dt n (apply n)) = .ok r) :
+    ∃ ns n, ChainTo env p dt (ns ++ [n]) n ∧ apply n = .ok r ∧ r > dt ∧ env.allows f r = true ∧
+      ∀ m ∈ ns, ∃ v, apply m = .ok v ∧ ¬ (v > dt ∧ env.allows f v = true) := by
+  refine loopN_inv
+    (fun cur => ∃ ns, ChainTo env p dt ns cur ∧ ∀ m ∈ ns, ∃ v, apply m = .ok v ∧ ¬ (v > dt ∧ env.allows f v = true))
+    (fun r => ∃ ns n, ChainTo env p dt (ns ++ [n]) n ∧ apply n = .ok r ∧ r > dt ∧ env.allows f r = true ∧
+      ∀ m ∈ ns, ∃ v, apply m = .ok v ∧ ¬ (v > dt ∧ env.allows f v = true))
+    _ ?_ ?_ _ _ _ ⟨[], ChainTo.nil, by simp⟩ h
+  · intro cur a ⟨ns, hch, hrej⟩ hb
+    split at hb
+    · simp at hb
+    · next n hn =>
+      unfold opStep at hb
+      split at hb
+      · simp at hb
+      · next v hv =>
+        split at hb
+        · next hc =>
+          simp at hb; subst hb
+          exact ⟨ns, n, ChainTo.snoc hch hn, hv, hc.1, hc.2, hrej⟩
+        · simp at hb
+  · intro cur cur' ⟨ns, hch, hrej⟩ hb
+    split at hb
+    · simp at hb
+    · next n hn =>
+      unfold opStep at hb
+      split at hb
+      · simp at hb
+      · next v hv =>
+        split at hb
+        · simp at hb
+        · next hc =>
+          simp at hb; subst hb
+          refine ⟨ns ++ [n], ChainTo.snoc hch hn, ?_⟩
+          intro m hm
+          rcases List.mem_append.1 hm with hm | hm
+          · exact hrej m hm
+          · simp at hm; subst hm; exact ⟨v, hv, hc⟩
+
+/-- for **offset**: the returned instant is `n + off` for the first occurrence `n` in the chain of the underlying
+trigger from `dt` with `n + off > dt` admitted by the filter; none before it is skipped -/
+theorem offset_first_in_chain (env : Env) (p : Producer) (off : Int) (f : Option Filter) (dt r : Int)
+    (h : getNext env (.offset p off f) dt = .ok r) :
+    ∃ ns n, ChainTo env p dt (ns ++ [n]) n ∧ r = n + off ∧ r > dt ∧ env.allows f r = true ∧
+      ∀ m ∈ ns, ¬ (m + off > dt ∧ env.allows f (m + off) = true) := by
+  unfold getNext at h
+  obtain ⟨ns, n, h1, h2, h3, h4, h5⟩ := op_tries_every_occurrence env p f dt r (fun n => .ok (n + off)) h
+  simp at h2
+  refine ⟨ns, n, h1, h2.symm, h3, h4, ?_⟩
+  intro m hm
+  obtain ⟨v, hv, hc⟩ := h5 m hm
+  simp at hv; subst hv; exact hc
+
 /-- **offset** shifts an occurrence of the underlying trigger by exactly the given amount -/
 theorem offset_exact (env : Env) (p : Producer) (off : Int) (f : Option Filter) (dt r : Int)
     (h : getNext env (.offset p off f) dt = .ok r) :
@@ -151,5 +220,8 @@ theorem jitter_eps_matches : Ea.Gen.jitterEpsNs = Ea.JITTER_EPS := by decide
 #guard okVal (earliestApply {} { tod := 8 * NS_PER_HOUR } (5 * NS_PER_HOUR) 0) == some (8 * NS_PER_HOUR)
 #guard okVal (latestApply {} { tod := 8 * NS_PER_HOUR } (9 * NS_PER_HOUR) 0) == some (8 * NS_PER_HOUR)
 example : DrawInRange {} := by intro a b n dt h; simp; exact h
+
+-- the chain theorem is not vacuous: an offset of 8 h over a 6 h grid, queried at 0, returns 6 h + 8 h
+#guard okVal (getNext {} (.offset (.interval (some 0) (6 * NS_PER_HOUR) none) (8 * NS_PER_HOUR) none) 0) == some (14 * NS_PER_HOUR)
 
 end Ea.C13
